@@ -2,6 +2,7 @@ import SeqVerif.Model.ProxySearchLemmas
 import SeqVerif.Model.DocsMergeLemmas
 import SeqVerif.Model.DocsMergeComplete
 import SeqVerif.Model.ProxyRead
+import SeqVerif.Model.ProxyCompose
 import SeqVerif.Extracted.C16
 /-!
 # C16 - proxy reads degrade honestly: complete if all shards answer, else marked partial
@@ -204,6 +205,180 @@ theorem c16_cold_only (hot cold : List (List Call)) (hotArr coldArr : List (Nat 
   have := c16_outcome hot cold hotArr coldArr hh hc offset size rev
   rw [h] at this
   exact this.2.1
+
+/-! ## composition with C05 (what a store answers) -/
+
+open SV.ProxyCompose in
+/-- **The two models of `seq.MergeQPRs` agree.**  `SV.ProxySearch.mergeQPRs` (this property: pairs `(mid, rid)`
+tagged with the answering replica, `rev = IsReverse`) and `SV.Merge.mergeQPRs` (C05: numbers `mid * 2^64 + rid`,
+`desc = !rev`, untagged) give the same IDs, the same total (uint64 wrap included) and, after `paginateIDs`, the same
+page, whenever the RIDs fit `uint64`.  `Errors` exist only in the C16 model, histograms only in C05's. -/
+theorem c16_merge_models_agree (rev : Bool) (offset size L hi : Nat) (qs : List ProxySearch.QPR) (hb : Bounded qs) :
+    (ProxySearch.mergeQPRs rev L qs).ids.map (fun p => keyOf p.1) =
+      (Merge.mergeQPRs (!rev) Merge.emptyQPR (qs.map conv) L hi).ids ∧
+    (ProxySearch.mergeQPRs rev L qs).total = (Merge.mergeQPRs (!rev) Merge.emptyQPR (qs.map conv) L hi).total ∧
+    (ProxySearch.paginate (ProxySearch.mergeQPRs rev (offset + size) qs).ids offset size).map (fun p => keyOf p.1) =
+      (Merge.proxyMerge (!rev) (qs.map conv) offset size hi).ids :=
+  ⟨merge_ids_agree rev L hi qs hb, merge_total_agree rev L hi qs hb, page_agree rev offset size hi qs hb⟩
+
+open SV.ProxyCompose in
+/-- **C16 ∘ C05.**  Hypotheses, by origin:
+* *this property (C16)*: `hh` - the arrival order is any permutation of the shard answers; `hn` - no hot shard
+  refuses (wants-old-data / too-many-fractions) and every shard has a replica; `hsome` - some shard answers.
+* *link*: `hans` - the response of an answering replica carries the IDs `SearchDocs` (C05's model of the store)
+  returns for that replica's fractions with limit `offset+size`, RIDs fitting `uint64`; `hdesc` - same order.
+* *C05 (`c05_partition_invariant` = `searchDocs_ids`)*: `hinv`, `hvis`, `hmax` - the fraction invariant, visibility
+  of non-empty fractions and the `MaxFractionHits` guard, for the fractions of every replica.
+* *deployment*: `hrep` - every replica of shard `s` holds the documents `shardDocs s` (the matching ones).
+Conclusion: `Search` succeeds from the hot tier; it is unflagged iff every shard answered; the returned IDs are
+exactly page `[offset, offset+size)` of the single strictly ordered, duplicate-free list of all matching documents of
+the answering shards (`Merge.sd`, characterised by `c05_sd_spec`), so a document held by several shards or replicas
+is listed once. -/
+theorem c16_c05_compose (c : Merge.Cfg) (from_ to_ : Nat) (hot : List (List Call))
+    (hotArr coldArr : List (Nat × ShardRes)) (hh : hotArr.Perm (indexed 0 (hot.map searchShard)))
+    (offset size : Nat) (rev : Bool) (hdesc : c.desc = !rev)
+    (fracs : Nat → Nat → List Merge.Frac) (shardDocs : Nat → List Nat)
+    (hn : ∀ calls ∈ hot, searchShard calls ≠ .wod ∧ searchShard calls ≠ .tmf ∧ calls ≠ [])
+    (hsome : ∃ calls ∈ hot, (searchShard calls).isOk = true)
+    (hans : ∀ s calls rep ids t e, hot[s]? = some calls → searchShard calls = .ok rep ids t e →
+      (∀ i ∈ ids, i.2 < Merge.R) ∧
+      ∃ q, Merge.searchDocs c (fracs s rep) from_ to_ (offset + size) = some q ∧ q.ids = ids.map keyOf)
+    (hinv : ∀ s rep, ∀ f ∈ fracs s rep, Merge.FracInv f)
+    (hvis : ∀ s rep, ∀ f ∈ fracs s rep, f.docs ≠ [] → Merge.isIntersecting f from_ to_ = true)
+    (hmax : ∀ s rep, c.maxHits = 0 ∨ (Merge.filterInRange (fracs s rep) from_ to_).length ≤ c.maxHits)
+    (hrep : ∀ s rep d, d ∈ Merge.docsOf (fracs s rep) ↔ d ∈ shardDocs s) :
+    ∃ ids t e p, search hotArr coldArr offset size rev = .ok ids t e p false ∧
+      (p = false ↔ ∀ calls ∈ hot, (searchShard calls).isOk = true) ∧
+      ids.map (fun x => keyOf x.1) =
+        ((Merge.sd c.desc (((List.range hot.length).filter fun s =>
+            ((hot[s]?).map fun calls => (searchShard calls).isOk).getD false).flatMap shardDocs)).drop offset).take size ∧
+      (ids.map (fun x => keyOf x.1)).Nodup := by
+  -- the request succeeds from the hot tier (C16)
+  have hdeg := c16_degrades hot hotArr coldArr hh hn offset size rev
+  have hex : ∃ ids t e p, search hotArr coldArr offset size rev = .ok ids t e p false := by
+    by_cases hall : ∀ calls ∈ hot, (searchShard calls).isOk = true
+    · obtain ⟨ids, t, e, h⟩ := hdeg.1 hall; exact ⟨ids, t, e, false, h⟩
+    · have : ∃ calls ∈ hot, (searchShard calls).isOk = false := by
+        apply Classical.byContradiction
+        intro hne
+        apply hall
+        intro calls hc
+        cases hb : (searchShard calls).isOk with
+        | true => rfl
+        | false => exact absurd ⟨calls, hc, hb⟩ hne
+      obtain ⟨ids, t, e, h⟩ := hdeg.2.1 hsome this; exact ⟨ids, t, e, true, h⟩
+  obtain ⟨ids, t, e, p, hs⟩ := hex
+  have hon := c16_outcome hot [] hotArr [] hh (by simp [indexed]) offset size rev
+  obtain ⟨qs, hst, hids, _⟩ := search_ok_hot hotArr coldArr offset size rev ids t e p hs
+  have hs' : search hotArr [] offset size rev = .ok ids t e p false := by
+    unfold search; rw [hst]; simp only [finish]; rw [hids]
+    have := hs; unfold search at this; rw [hst] at this; simp only [finish] at this
+    injection this with h1 h2 h3 h4 h5
+    rw [h2, h3]
+  rw [hs'] at hon
+  have hflag := hon.2.2.1
+  simp only [Bool.false_eq_true, if_false] at hflag
+  -- the answers that reached the merge are the answering replicas' responses
+  obtain ⟨hqs, _, _, _⟩ := storesLoop_data hotArr [] 0 false qs p hst
+  simp only [List.nil_append] at hqs
+  have hq : ∀ q, q ∈ qs ↔ ∃ calls, hot[q.src.1]? = some calls ∧ searchShard calls = .ok q.src.2 q.ids q.total q.nerr := by
+    intro q; rw [hqs, mem_oks, mem_arrival hh]
+  have hb : Bounded qs := by
+    intro q hqm i hi
+    obtain ⟨calls, h1, h2⟩ := (hq q).mp hqm
+    exact (hans _ calls _ _ _ _ h1 h2).1 i hi
+  -- each answer is the cut of the store's ordered list (C05: searchDocs_ids)
+  have hstore : ∀ q ∈ qs, q.ids.map keyOf = (Merge.sd c.desc (Merge.docsOf (fracs q.src.1 q.src.2))).take (offset + size) := by
+    intro q hqm
+    obtain ⟨calls, h1, h2⟩ := (hq q).mp hqm
+    obtain ⟨_, q5, hq5, hq5ids⟩ := hans _ calls _ _ _ _ h1 h2
+    obtain ⟨q6, hq6, hq6ids⟩ := Merge.searchDocs_ids c (fracs q.src.1 q.src.2) from_ to_ (offset + size)
+      (hinv _ _) (hvis _ _) (hmax _ _)
+    rw [hq5] at hq6
+    injection hq6 with hq6
+    rw [← hq5ids, hq6, hq6ids]
+  -- the proxy merge and page (C05: proxyMerge_ids = c05_proxy_page) on the bridged model
+  have hpage := page_agree rev offset size 0 qs hb
+  have hproxy := Merge.proxyMerge_ids (!rev) (qs.map fun q => Merge.docsOf (fracs q.src.1 q.src.2)) (qs.map conv)
+    offset size 0 (by
+      simp only [List.map_map]
+      apply List.map_congr_left
+      intro q hqm
+      simp only [Function.comp, conv]
+      rw [hstore q hqm, hdesc])
+  have hkeys : ids.map (fun x => keyOf x.1) =
+      ((Merge.sd (!rev) (qs.map fun q => Merge.docsOf (fracs q.src.1 q.src.2)).flatten).drop offset).take size := by
+    rw [hids, hpage, hproxy]
+  -- the documents of the answering replicas are the documents of the answering shards
+  have hmem : ∀ d, d ∈ (qs.map fun q => Merge.docsOf (fracs q.src.1 q.src.2)).flatten ↔
+      d ∈ ((List.range hot.length).filter fun s =>
+        ((hot[s]?).map fun calls => (searchShard calls).isOk).getD false).flatMap shardDocs := by
+    intro d
+    simp only [List.mem_flatten, List.mem_map, List.mem_flatMap, List.mem_filter, List.mem_range]
+    constructor
+    · rintro ⟨l, ⟨q, hqm, rfl⟩, hd⟩
+      obtain ⟨calls, h1, h2⟩ := (hq q).mp hqm
+      refine ⟨q.src.1, ⟨?_, ?_⟩, (hrep _ _ d).mp hd⟩
+      · rcases Nat.lt_or_ge q.src.1 hot.length with h | h
+        · exact h
+        · rw [List.getElem?_eq_none h] at h1; cases h1
+      · simp [h1, h2, ShardRes.isOk]
+    · rintro ⟨s, ⟨hlt, hok⟩, hd⟩
+      have hget : hot[s]? = some hot[s] := List.getElem?_eq_getElem hlt
+      rw [hget] at hok
+      simp only [Option.map_some, Option.getD_some] at hok
+      cases hr : searchShard hot[s] with
+      | ok rep l t' e' =>
+        have : (⟨(s, rep), l, t', e'⟩ : ProxySearch.QPR) ∈ qs := (hq _).mpr ⟨hot[s], hget, hr⟩
+        exact ⟨_, ⟨_, this, rfl⟩, (hrep s rep d).mpr hd⟩
+      | _ => rw [hr] at hok; simp [ShardRes.isOk] at hok
+  refine ⟨ids, t, e, p, hs, hflag, ?_, ?_⟩
+  · rw [hkeys, hdesc, Merge.sd_congr (!rev) _ _ hmem]
+  · rw [hkeys]
+    exact List.Nodup.sublist ((List.take_sublist _ _).trans (List.drop_sublist _ _))
+      (Merge.sortedBy_nodup (!rev) _ (Merge.sd_sorted (!rev) _))
+
+open SV.ProxyCompose in
+/-- the complete case spelled out: every shard has an answering replica => unflagged, and the page is taken from the
+ordered list of the matching documents of *all* shards -/
+theorem c16_c05_complete (c : Merge.Cfg) (from_ to_ : Nat) (hot : List (List Call))
+    (hotArr coldArr : List (Nat × ShardRes)) (hh : hotArr.Perm (indexed 0 (hot.map searchShard)))
+    (offset size : Nat) (rev : Bool) (hdesc : c.desc = !rev)
+    (fracs : Nat → Nat → List Merge.Frac) (shardDocs : Nat → List Nat)
+    (hne : hot ≠ []) (hall : ∀ calls ∈ hot, (searchShard calls).isOk = true)
+    (hans : ∀ s calls rep ids t e, hot[s]? = some calls → searchShard calls = .ok rep ids t e →
+      (∀ i ∈ ids, i.2 < Merge.R) ∧
+      ∃ q, Merge.searchDocs c (fracs s rep) from_ to_ (offset + size) = some q ∧ q.ids = ids.map keyOf)
+    (hinv : ∀ s rep, ∀ f ∈ fracs s rep, Merge.FracInv f)
+    (hvis : ∀ s rep, ∀ f ∈ fracs s rep, f.docs ≠ [] → Merge.isIntersecting f from_ to_ = true)
+    (hmax : ∀ s rep, c.maxHits = 0 ∨ (Merge.filterInRange (fracs s rep) from_ to_).length ≤ c.maxHits)
+    (hrep : ∀ s rep d, d ∈ Merge.docsOf (fracs s rep) ↔ d ∈ shardDocs s) :
+    ∃ ids t e, search hotArr coldArr offset size rev = .ok ids t e false false ∧
+      ids.map (fun x => keyOf x.1) =
+        ((Merge.sd c.desc ((List.range hot.length).flatMap shardDocs)).drop offset).take size := by
+  have hn : ∀ calls ∈ hot, searchShard calls ≠ .wod ∧ searchShard calls ≠ .tmf ∧ calls ≠ [] := by
+    intro calls hc
+    have hok := hall calls hc
+    refine ⟨?_, ?_, ?_⟩ <;> intro h <;> (try rw [h] at hok) <;> (try simp [ShardRes.isOk] at hok)
+    subst h
+    simp [searchShard, searchShardGo] at hok
+  have hsome : ∃ calls ∈ hot, (searchShard calls).isOk = true := by
+    cases hot with
+    | nil => exact absurd rfl hne
+    | cons x xs => exact ⟨x, List.mem_cons_self, hall x List.mem_cons_self⟩
+  obtain ⟨ids, t, e, p, h1, h2, h3, _⟩ := c16_c05_compose c from_ to_ hot hotArr coldArr hh offset size rev hdesc fracs
+    shardDocs hn hsome hans hinv hvis hmax hrep
+  have hp : p = false := h2.mpr hall
+  subst hp
+  refine ⟨ids, t, e, h1, ?_⟩
+  rw [h3]
+  congr 4
+  apply List.filter_eq_self.mpr
+  intro s hs
+  have hlt := List.mem_range.mp hs
+  rw [List.getElem?_eq_getElem hlt]
+  simp only [Option.map_some, Option.getD_some]
+  exact hall _ (List.getElem_mem hlt)
 
 /-! ## fetch side -/
 
@@ -509,6 +684,60 @@ example : (∃ calls ∈ [[Call.resp .none [(9, 1)] 1 0], [Call.fail, Call.failW
 is silent and one reports too-many-unique-values -/
 example : ∀ calls ∈ [[Call.fail, Call.resp .none [(9, 1)] 1 0], [Call.fail, Call.fail], [Call.resp .tmu [] 0 0]],
     searchShard calls ≠ .wod ∧ searchShard calls ≠ .tmf ∧ calls ≠ [] := by decide
+
+/-- the hypotheses of `c16_c05_compose` / `c16_c05_complete` are met by a concrete deployment: two shards, shard 0
+answering on its second replica; descending order, page (0, 2); each replica's answer is `SearchDocs` of its fractions -/
+example :
+    let c : Merge.Cfg := ⟨true, false, 0, false, 0, 0⟩
+    let hot : List (List Call) :=
+      [[.fail, .resp .none [(30, 1), (20, 1)] 0 0], [.resp .none [(25, 0)] 0 0]]
+    let fracs : Nat → Nat → List Merge.Frac := fun s _ =>
+      if s = 0 then [⟨2, 10, 30, [Merge.key 30 1, Merge.key 20 1]⟩] else [⟨1, 5, 25, [Merge.key 25 0]⟩]
+    let shardDocs : Nat → List Nat := fun s => if s = 0 then [Merge.key 30 1, Merge.key 20 1] else [Merge.key 25 0]
+    (∀ calls ∈ hot, (searchShard calls).isOk = true) ∧
+    (∀ s calls rep ids t e, hot[s]? = some calls → searchShard calls = .ok rep ids t e →
+      (∀ i ∈ ids, i.2 < Merge.R) ∧
+      ∃ q, Merge.searchDocs c (fracs s rep) 0 100 (0 + 2) = some q ∧ q.ids = ids.map ProxyCompose.keyOf) ∧
+    (∀ s rep, ∀ f ∈ fracs s rep, Merge.FracInv f) ∧
+    (∀ s rep, ∀ f ∈ fracs s rep, f.docs ≠ [] → Merge.isIntersecting f 0 100 = true) ∧
+    (∀ s rep d, d ∈ Merge.docsOf (fracs s rep) ↔ d ∈ shardDocs s) := by
+  intro c hot fracs shardDocs
+  refine ⟨by decide, ?_, ?_, ?_, ?_⟩
+  · intro s calls rep ids t e hs hok
+    match s, hs with
+    | 0, hs =>
+      simp only [hot, List.getElem?_cons_zero, Option.some.injEq] at hs
+      subst hs
+      have : searchShard [Call.fail, Call.resp .none [(30, 1), (20, 1)] 0 0] = .ok 1 [(30, 1), (20, 1)] 0 0 := by decide
+      rw [this] at hok
+      injection hok with h1 h2 h3 h4
+      subst h1 h2 h3 h4
+      refine ⟨by decide, ⟨[Merge.key 30 1, Merge.key 20 1], 0, some []⟩, by decide +kernel, by decide⟩
+    | 1, hs =>
+      simp only [hot, List.getElem?_cons_succ, List.getElem?_cons_zero, Option.some.injEq] at hs
+      subst hs
+      have : searchShard [Call.resp .none [(25, 0)] 0 0] = .ok 0 [(25, 0)] 0 0 := by decide
+      rw [this] at hok
+      injection hok with h1 h2 h3 h4
+      subst h1 h2 h3 h4
+      refine ⟨by decide, ⟨[Merge.key 25 0], 0, some []⟩, by decide +kernel, by decide⟩
+    | n + 2, hs => simp [hot] at hs
+  · intro s rep f hf
+    by_cases h0 : s = 0
+    · simp only [fracs, h0, if_true, List.mem_singleton] at hf
+      subst hf; intro d hd
+      simp only [List.mem_cons, List.mem_nil_iff, or_false] at hd
+      rcases hd with rfl | rfl <;> decide
+    · simp only [fracs, h0, if_false, List.mem_singleton] at hf
+      subst hf; intro d hd
+      simp only [List.mem_cons, List.mem_nil_iff, or_false] at hd
+      subst hd; decide
+  · intro s rep f hf _
+    by_cases h0 : s = 0
+    · simp only [fracs, h0, if_true, List.mem_singleton] at hf; subst hf; decide
+    · simp only [fracs, h0, if_false, List.mem_singleton] at hf; subst hf; decide
+  · intro s rep d
+    by_cases h0 : s = 0 <;> simp [fracs, shardDocs, h0, Merge.docsOf]
 
 /-- three sources, one stream truncated, one carrying an unrequested and a repeated document, hints present -/
 example :
